@@ -11,7 +11,11 @@ VARIABLES l, base, members, lcfg, rcfg, okSeq, okTw, nW, cnt, closedSeen, devs, 
 vars == <<l, base, members, lcfg, rcfg, okSeq, okTw, nW, cnt, closedSeen, devs, taint>>
 
 TwccExtId == 7
-RemoteSSRC == 2     \* the remote stream of every C01 program (a forced PLI is written while BindRemoteStream runs)
+\* A PLI must name a remote stream that is bound - or is being bound: a forced PLI is written while BindRemoteStream
+\* runs, i.e. shortly before the bind event of that stream is logged.
+PliSsrcOk(ssrc) == \/ ssrc \in DOMAIN rcfg
+                   \/ \E j \in l .. (IF l + 8 < Len(Trace) THEN l + 8 ELSE Len(Trace)) :
+                         Trace[j].a = "bindm" /\ Trace[j].s = ssrc
 Range(f) == {f[i] : i \in DOMAIN f}
 Fn(f, k, d) == IF k \in DOMAIN f THEN f[k] ELSE d
 Put(f, k, v) == [x \in DOMAIN f \cup {k} |-> IF x = k THEN v ELSE f[x]]
@@ -41,10 +45,10 @@ SumOk(x) ==
   CASE x.t = "rr"   -> x.hi \in Fn(okSeq, x.ssrc, {}) \cup {0}
     [] x.t = "nack" -> /\ Range(x.nums) \cap Fn(okSeq, x.ssrc, {}) = {}
                        /\ Fn(okSeq, x.ssrc, {}) # {}
-                       /\ \A n \in Range(x.nums) : n < MaxOf(okSeq[x.ssrc])
+                       /\ \A n \in Range(x.nums) : \E m \in okSeq[x.ssrc] : (m - n) % 65536 \in 1 .. 32767   \* behind a read number
     [] x.t = "twcc" -> Range(x.nums) \subseteq okTw
     [] x.t = "ccfb" -> Range(x.nums) \subseteq Fn(okSeq, x.ssrc, {})
-    [] x.t = "pli"  -> x.ssrc = RemoteSSRC
+    [] x.t = "pli"  -> PliSsrcOk(x.ssrc)
     [] OTHER -> TRUE
 
 Accept(e) ==
